@@ -31,6 +31,7 @@ import json
 import logging
 import os
 import shutil
+import signal
 import sys
 import time
 from concurrent.futures import ThreadPoolExecutor
@@ -437,6 +438,21 @@ def _benign_prefixes() -> Tuple[str, ...]:
     return tuple(sorted(pref))
 
 
+class _ReplayAborted(Exception):
+    """Library calls keep hanging (watchdog fired repeatedly): the rest of the replay is skipped."""
+
+
+class _CallTimeout(BaseException):
+    """Raised by the watchdog inside a library call that does not come back (e.g. a walk following link cycles)."""
+
+
+def _on_alarm(signum: int, frame: Any) -> None:
+    raise _CallTimeout()
+
+
+CALL_TIMEOUT_S = 4.0
+
+
 class Oracle:
     """Runs one call with the recorder active and decides the property verdict."""
 
@@ -467,13 +483,19 @@ class Oracle:
         rec.events = []
         out: Dict[str, Any] = {"raised": False, "exc": "", "msg": "", "result": None}
         rec.active = True
+        signal.setitimer(signal.ITIMER_REAL, CALL_TIMEOUT_S)
         try:
             out["result"] = fn()
+        except _CallTimeout:
+            out["raised"] = True
+            out["exc"] = "WatchdogTimeout"
+            out["msg"] = f"call did not return within {CALL_TIMEOUT_S}s"
         except Exception as e:  # the library's verdict on the path, not ours
             out["raised"] = True
             out["exc"] = type(e).__name__
             out["msg"] = str(e)[:200]
         finally:
+            signal.setitimer(signal.ITIMER_REAL, 0)
             rec.active = False
         out["outside"] = self._outside_events()
         self.calls += 1
@@ -699,6 +721,10 @@ def _direct(ctx: Ctx, layouts: Dict[str, Dict[str, Any]], cases: List[Dict[str, 
                         stats["accepted_calls"] += 1
                     else:
                         stats["raised_calls"] += 1
+                        if r["exc"] == "WatchdogTimeout":
+                            stats["watchdog_timeouts"] += 1
+                            if stats["watchdog_timeouts"] >= 3:
+                                raise _ReplayAborted()
             # closing deep fingerprint: content hashes of everything outside
             if not world.outside_intact():
                 ctx.violation(f"outside-touched:batch:{_layout_class(name)}", f"layout {name}: outside tree differs from what was built after the replay batch",
@@ -879,7 +905,11 @@ def _e2e(ctx: Ctx, layouts: Dict[str, Dict[str, Any]], cases: List[Dict[str, Any
         top = scratch_dir("c17e")
         world = World(layouts[name], top)
         try:
-            fx = TableFixture(world)
+            try:
+                fx = TableFixture(world)
+            except Exception as e:        # the (possibly mutated) library cannot even build a table in this layout
+                stats["e2e_fixture_failures"].append(f"{name}: {type(e).__name__}: {str(e)[:160]}")
+                continue
             world.baseline = world.fingerprint()
             oracle = Oracle(ctx, world, rec)
             # control: untampered table, GC with grace 0 keeps the live rows and touches nothing outside
@@ -924,6 +954,10 @@ def _e2e(ctx: Ctx, layouts: Dict[str, Dict[str, Any]], cases: List[Dict[str, Any
                                           {"mode": "e2e", "layout": world.lay, "case": case, "kind": kind, "op": op, "observed": _jsonable(r)})
                             bad = True
                         stats["e2e_raised" if r["raised"] else "e2e_returned"] += 1
+                        if r["exc"] == "WatchdogTimeout":
+                            stats["watchdog_timeouts"] += 1
+                            if stats["watchdog_timeouts"] >= 3:
+                                raise _ReplayAborted()
                         oracle.recover(bad or r["fp_changed"])
             if not world.outside_intact():
                 ctx.violation(f"outside-touched:e2e-batch:{_layout_class(name)}", f"layout {name}: outside tree differs after the end-to-end batch",
@@ -980,7 +1014,29 @@ def _companion_run(sample_file: str, depth: int) -> tlc.TLCResult:
                        label=f"MC_PathRes CompSpec (defect / repair / variants on the depth-{depth} grid)")
 
 
-def _companions(ctx: Ctx, res: tlc.TLCResult) -> None:
+def _probe_root_guard() -> bool:
+    """Which value of the model flag VRootGuard describes the code as it is: does a write whose path resolves to the
+    table root itself still put its temporary file into the root's parent directory (finding C17-write-to-root)?"""
+    from datashard.storage_backend import LocalStorageBackend
+
+    d = scratch_dir("c17p")
+    parent = os.path.join(d, "parent")
+    root = os.path.join(parent, "t")
+    os.makedirs(root)
+    before = os.stat(parent).st_mtime_ns
+    refused = False
+    try:
+        LocalStorageBackend(root).write_file("", b"probe")
+    except ValueError:
+        refused = True
+    except Exception:
+        refused = False
+    untouched = os.stat(parent).st_mtime_ns == before and os.listdir(parent) == ["t"]
+    shutil.rmtree(d, ignore_errors=True)
+    return refused and untouched
+
+
+def _companions(ctx: Ctx, res: tlc.TLCResult, repaired_in_repo: bool) -> None:
     ctx.add_tlc(res)
     verdict: Dict[str, bool] = {}
     for line in res.stdout.splitlines():
@@ -996,12 +1052,14 @@ def _companions(ctx: Ctx, res: tlc.TLCResult) -> None:
             ctx.violation("model:Confined", f"TLC (CompSpec): the as-is model's verdicts changed: {wrong}", res.stdout[-3000:])
             return
         raise MachineryError(f"anti-vacuity / repair companion failed: {wrong or res.violated}\n{res.stdout[-2000:]}")
+    ctx.cov["anti_vacuity"] = sorted(k for k in verdict if k.endswith("Caught") or k.startswith("reaches") or k == "asIsStrictConfinedFails")
+    ctx.cov["repair_modelled"] = "repairedAllHold: with VRootGuard=TRUE Confined (strict), EscapeRejected, NotMisresolved and the listing theorems hold"
+    if repaired_in_repo:
+        return
     # fails with the defect modelled, holds with the repair modelled
     ctx.violation("model:Confined:write-resolving-to-root",
                   "TLC: in the as-is model a write-class call whose path resolves to the table root itself puts its temporary file into the "
                   "root's parent directory (strict Confined fails exactly there; holds with VRootGuard=TRUE)", verdict)
-    ctx.cov["anti_vacuity"] = sorted(k for k in verdict if k.endswith("Caught") or k.startswith("reaches") or k == "asIsStrictConfinedFails")
-    ctx.cov["repair_modelled"] = "repairedAllHold: with VRootGuard=TRUE Confined (strict), EscapeRejected, NotMisresolved and the listing theorems hold"
 
 
 def _quiet() -> None:
@@ -1022,12 +1080,16 @@ def run(ctx: Ctx) -> None:
     layouts_file = os.path.join(work, "layouts.json")
     empty_file = os.path.join(work, "empty.ndjson")
     open(empty_file, "w").close()
+    guard = _probe_root_guard()
+    ctx.cov["model_flag_VRootGuard"] = guard
+    as_is = dict(AS_IS, VRootGuard=guard)
+    invariants = (["Confined"] if guard else ["ConfinedKnown"]) + MAIN_INVARIANTS[1:]
     if quick:
         sample = _sample_cases(ctx.seed, 1500, 3, 4)
-        consts = dict(AS_IS, MaxDepth=2, AbsDepth=1)
+        consts = dict(as_is, MaxDepth=2, AbsDepth=1)
     else:
         sample = _sample_cases(ctx.seed, 4000, 3, 4)            # mostly duplicates of the grid, plus absolute prefixes at depth 3-4
-        consts = dict(AS_IS, MaxDepth=4, AbsDepth=2)
+        consts = dict(as_is, MaxDepth=4, AbsDepth=2)
     with open(sample_file, "w") as f:
         for c in sample:
             f.write(json.dumps(c) + "\n")
@@ -1035,10 +1097,10 @@ def run(ctx: Ctx) -> None:
     # companions run in the background while the main model is checked
     with ThreadPoolExecutor(max_workers=1) as bg:
         comp = bg.submit(_companion_run, empty_file, 1 if quick else 2)
-        res = _tlc(f"MC_PathRes as-is MaxDepth={consts['MaxDepth']} AbsDepth={consts['AbsDepth']} sample={len(sample)}", consts,
-                   MAIN_INVARIANTS, sample_file, layouts_file, workers=6 if quick else 12, timeout_s=1500)
+        res = _tlc(f"MC_PathRes as-is (VRootGuard={guard}) MaxDepth={consts['MaxDepth']} AbsDepth={consts['AbsDepth']} sample={len(sample)}", consts,
+                   invariants, sample_file, layouts_file, workers=6 if quick else 12, timeout_s=1500)
         ctx.add_tlc(res)
-        _companions(ctx, comp.result())
+        _companions(ctx, comp.result(), guard)
     if not res.ok:
         ctx.violation("model:" + "+".join(res.violated or ["error"]),
                       f"TLC: {res.violated} violated in the path-resolution model (transcription of _resolve_path/_get_arrow_path/list_files)",
@@ -1056,23 +1118,37 @@ def run(ctx: Ctx) -> None:
     ctx.cov["model_root_itself"] = sum(1 for c in cases if "".join(c["resFull"]) == "/p1/p2/p3/w/t" and not c["resRej"])
 
     stats: Dict[str, Any] = {k: 0 for k in ("drift_reject", "drift_full", "drift_list", "drift_node", "duplicate_spellings", "accepted_calls",
-                                             "raised_calls", "e2e_raised", "e2e_returned", "e2e_control_rows_lost")}
+                                             "raised_calls", "e2e_raised", "e2e_returned", "e2e_control_rows_lost", "watchdog_timeouts")}
+    stats["e2e_fixture_failures"] = []
     cleanup = _sysroot_guard()
     rec = Recorder()
     rec.install()
+    old_alarm = signal.signal(signal.SIGALRM, _on_alarm)
     t0 = time.time()
+    n1 = n2 = 0
+    t1 = t2 = t0
     try:
         n1 = _direct(ctx, layouts, cases, rec, full_depth=2 if quick else 3, seed=ctx.seed, stats=stats)
         t1 = time.time()
         n2 = _e2e(ctx, layouts, cases, rec, per_layout=34 if quick else 400, seed=ctx.seed, stats=stats)
         t2 = time.time()
+    except _ReplayAborted:
+        ctx.cov["replay_aborted"] = "library calls kept hanging (3 watchdog timeouts); remaining replay skipped"
+        n1 = ctx.cov["evaluations"]
     finally:
+        signal.setitimer(signal.ITIMER_REAL, 0)
+        signal.signal(signal.SIGALRM, old_alarm)
         rec.uninstall()
         junk = cleanup()
     if junk:
         ctx.violation("outside-touched:system-root", f"objects were created directly under the filesystem root: {junk}", {"junk": junk})
     if stats["accepted_calls"] == 0 or stats["raised_calls"] == 0:
         raise MachineryError("vacuous replay: no accepted or no rejected call")
+    if stats["e2e_fixture_failures"] and not ctx.violations:
+        raise MachineryError(f"the end-to-end fixture table could not be built: {stats['e2e_fixture_failures']}")
+    if (stats["watchdog_timeouts"] or stats["e2e_control_rows_lost"]) and not ctx.violations:
+        raise MachineryError(f"replay anomalies without a property verdict: {stats['watchdog_timeouts']} watchdog timeouts, "
+                             f"{stats['e2e_control_rows_lost']} control scans that lost rows")
     ctx.count_traces(n1 + n2)
     ctx.cov["direct_calls"] = n1
     ctx.cov["e2e_operations"] = n2
@@ -1105,6 +1181,7 @@ def replay(ctx: Ctx, path: str) -> None:
         return
     rec = Recorder()
     rec.install()
+    signal.signal(signal.SIGALRM, _on_alarm)
     top = scratch_dir("c17r")
     stats: Dict[str, Any] = {k: 0 for k in ("drift_reject", "drift_full", "drift_list", "drift_node")}
     try:
